@@ -36,218 +36,7 @@ func runC09(c *core.Ctx) core.Meta {
 	pc := NewPkgInfo(c, cpPkg)
 
 	// ---------------- R09.1 placement algorithms agree ----------------
-	st1 := c.Rule("R09.1", "every type implementing dispatching.algorithm returns a valid location only where ReserveResourceForWG succeeded on the CU whose port and ID are returned, for the work-group that was reserved; on that path the dispatched counter is incremented exactly once and the pending work-group slot is cleared; FreeResources frees location.wg on GetCU(location.cuID); HasNext compares the same counter with the number of work-groups", 3)
-	algIface := pd.Pkg.Pkg.Scope().Lookup("algorithm")
-	var algTypes []*types.Named
-	if algIface == nil {
-		c.Report(core.Finding{Rule: "R09.1", Kind: "anchor", Pkg: dispPkg, Func: "-", Detail: "algorithm", Msg: "interface dispatching.algorithm not found"})
-	} else {
-		iface := algIface.Type().Underlying().(*types.Interface)
-		for _, n := range pd.Pkg.Pkg.Scope().Names() {
-			tn, ok := pd.Pkg.Pkg.Scope().Lookup(n).(*types.TypeName)
-			if !ok {
-				continue
-			}
-			named, ok := tn.Type().(*types.Named)
-			if !ok || types.IsInterface(named) || strings.HasPrefix(tn.Name(), "Mock") {
-				continue // generated gomock types are test doubles, not placement algorithms
-			}
-			if types.Implements(types.NewPointer(named), iface) {
-				algTypes = append(algTypes, named)
-			}
-		}
-	}
-	for _, at := range algTypes {
-		tn := at.Obj().Name()
-		st1.Instances++
-		next := c.MustFunc("R09.1", dispPkg, tn+".Next")
-		if next == nil {
-			continue
-		}
-		c.MarkAnalysed(next)
-		g := core.BuildGraph(next, 2, func(cal *ssa.Function) bool { return cal.Pkg == pd.Pkg })
-		reserves := g.NodesWhere(func(n *core.Node) bool {
-			return n.Frame.Parent == nil && invokes(n.Instr, "/resource", "ReserveResourceForWG")
-		})
-		if len(reserves) != 1 {
-			st1.Ob(false)
-			c.ReportAt("R09.1", next, next.Pos(), tn+":reserve-count", fmt.Sprintf("%d calls of ReserveResourceForWG in Next; the sibling algorithms have exactly one", len(reserves)))
-			continue
-		}
-		rv := reserves[0]
-		cuProv := prov.Of(core.CallOf(rv.Instr).Value)
-		wgProv := prov.Of(core.CallOf(rv.Instr).Args[0])
-		okCut := boolCut(func(_ *core.Node, v ssa.Value) bool {
-			e, ok := v.(*ssa.Extract)
-			return ok && e.Index == 1 && e.Tuple == rv.Instr.(ssa.Value)
-		}, true)
-		// dispatched counter field of this algorithm: field incremented in Next
-		counter := ""
-		for _, n := range g.Nodes {
-			if n.Frame.Parent != nil {
-				continue
-			}
-			if s, ok := n.Instr.(*ssa.Store); ok {
-				if f := core.FieldOfAddr(s.Addr); f != nil && core.ShortFieldID(f) == tn+"."+f.Name() && prov.Of(s.Val) == "(recv."+f.Name()+"+1)" {
-					counter = f.Name()
-				}
-			}
-		}
-		if counter == "" {
-			st1.Ob(false)
-			c.ReportAt("R09.1", next, next.Pos(), tn+":no-dispatched-counter", "Next never increments a dispatched-work-group counter of the algorithm")
-		}
-		for _, r := range g.NodesWhere(func(n *core.Node) bool { _, ok := n.Instr.(*ssa.Return); return ok && n.Frame.Parent == nil }) {
-			ret := r.Instr.(*ssa.Return)
-			pv := prov.Of(ret.Results[0])
-			if !strings.Contains(pv, "valid:true") {
-				st1.Ob(true)
-				continue
-			}
-			okG := g.Guarded(r, okCut)
-			st1.Ob(okG)
-			if !okG {
-				c.ReportAt("R09.1", next, ret.Pos(), tn+":valid-without-reservation", "a location with valid=true is returned on a path on which ReserveResourceForWG did not succeed: the work-group is mapped without resources")
-			}
-			m := regexp.MustCompile(`cu:(.*)\.DispatchingPort\(\),cuID:(.*),valid:true,wg:(.*)\}$`).FindStringSubmatch(pv)
-			okF := m != nil && m[1] == cuProv && cuProv == "recv.cuPool.GetCU("+m[2]+")" && m[3] == wgProv
-			st1.Ob(okF)
-			st1.Sample("%s.Next: valid location {cu:%s, wg:%s} after Reserve on %s", tn, short(cuProv), short(wgProv), short(cuProv))
-			if !okF {
-				c.ReportAt("R09.1", next, ret.Pos(), tn+":location-fields", fmt.Sprintf("the returned location does not name the CU (%s) and work-group (%s) of the successful reservation: %s", short(cuProv), short(wgProv), short(pv)))
-			}
-			// exactly one increment of the counter between reservation success and this return
-			if counter != "" {
-				cnt := 0
-				// count increments on some path: walk from the reservation; all increment nodes that reach r
-				for _, n := range g.Nodes {
-					if n.Frame.Parent != nil {
-						continue
-					}
-					if s, ok := storeToField(n.Instr, tn+"."+counter); ok && prov.Of(s.Val) == "(recv."+counter+"+1)" {
-						fromRes, _ := g.Reach(core.After(rv, nil), core.WalkOpts{ForwardOnly: true})
-						toRet, _ := g.Reach(core.After(n, nil), core.WalkOpts{ForwardOnly: true})
-						if fromRes[n] && toRet[r] {
-							cnt++
-							// must-pass: every path from ok-edge to r passes n
-							pass := true
-							g.Walk(core.After(rv, nil), core.WalkOpts{ForwardOnly: true, Stop: func(x *core.Node) bool { return x == n }}, func(s core.State) {
-								if s.N == r {
-									pass = false
-								}
-							})
-							st1.Ob(pass)
-							if !pass {
-								c.ReportAt("R09.1", next, ret.Pos(), tn+":counter-skipped", "a valid location can be returned without counting the work-group as dispatched (HasNext then offers it again)")
-							}
-						}
-					}
-				}
-				st1.Ob(cnt == 1)
-				if cnt != 1 {
-					c.ReportAt("R09.1", next, ret.Pos(), tn+":counter-count", fmt.Sprintf("%d increments of %s on the success path; exactly one expected", cnt, counter))
-				}
-			}
-			// pending slot cleared: the slot set to nil is the slot the dispatched
-			// work-group was taken from. Either the slot is the field whose value is
-			// the reserved work-group, or it is element [k] of a slice where k was
-			// returned, together with the work-group, by one call whose returns all
-			// have the form (slots[k], k) or (nil, _).
-			cleared := false
-			for _, n := range g.Nodes {
-				s, ok := n.Instr.(*ssa.Store)
-				if !ok || !core.IsNilConst(s.Val) || !strings.Contains(prov.Of(s.Addr), "currWG") {
-					continue
-				}
-				toRet, _ := g.Reach(core.After(n, nil), core.WalkOpts{ForwardOnly: true})
-				if !toRet[r] {
-					continue
-				}
-				cleared = true
-				okSlot, why := slotIsSourceOf(prov, s.Addr, core.CallOf(rv.Instr).Args[0])
-				st1.Ob(okSlot)
-				if !okSlot {
-					c.ReportAt("R09.1", n.Fn(), s.Pos(), tn+":slot-not-source", "the pending slot cleared on the success path is not the slot the dispatched work-group was taken from ("+why+"): the work-group stays pending and is dispatched again while another one is dropped")
-				}
-			}
-			st1.Ob(cleared)
-			if !cleared {
-				c.ReportAt("R09.1", next, ret.Pos(), tn+":slot-not-cleared", "the pending work-group slot is not cleared on the success path: the same work-group is dispatched again")
-			}
-			// per-source counters (partitions[k].dispatchedWG) use the same k
-			for _, n := range g.Nodes {
-				s, ok := n.Instr.(*ssa.Store)
-				if !ok || n.Frame.Parent != nil {
-					continue
-				}
-				fa, ok := s.Addr.(*ssa.FieldAddr)
-				if !ok {
-					continue
-				}
-				ld, ok := fa.X.(*ssa.UnOp)
-				if !ok {
-					continue
-				}
-				ia, ok := ld.X.(*ssa.IndexAddr)
-				if !ok {
-					continue
-				}
-				if bo, isB := s.Val.(*ssa.BinOp); !isB || bo.Op != token.ADD {
-					continue
-				}
-				st1.Instances++
-				wgP := prov.Of(core.CallOf(rv.Instr).Args[0])
-				okIdx := prov.Of(ia.Index) == wgP+"#1"
-				st1.Ob(okIdx)
-				if !okIdx {
-					c.ReportAt("R09.1", next, s.Pos(), tn+":source-counter-index", fmt.Sprintf("a per-source dispatched counter is incremented at index %s, which is not the source index returned with the dispatched work-group (%s#1)", short(prov.Of(ia.Index)), short(wgP)))
-				}
-			}
-		}
-		// FreeResources
-		if fr := c.MustFunc("R09.1", dispPkg, tn+".FreeResources"); fr != nil {
-			found := false
-			for _, b := range fr.Blocks {
-				for _, in := range b.Instrs {
-					if invokes(in, "/resource", "FreeResourcesForWG") {
-						found = true
-						cc := core.CallOf(in)
-						rp, ap := prov.Of(cc.Value), prov.Of(cc.Args[0])
-						ok := core.ProvMatch(regexp.MustCompile(`^recv\.cuPool\.GetCU\(.*\.cuID\)$`), rp) && strings.HasSuffix(ap, ".wg")
-						st1.Ob(ok)
-						st1.Sample("%s.FreeResources: %s.FreeResourcesForWG(%s)", tn, rp, ap)
-						if !ok {
-							c.ReportAt("R09.1", fr, in.Pos(), tn+":free-args", "FreeResources does not free location.wg on GetCU(location.cuID): "+rp+".FreeResourcesForWG("+ap+")")
-						}
-					}
-				}
-			}
-			st1.Ob(found)
-			if !found {
-				c.ReportAt("R09.1", fr, fr.Pos(), tn+":free-missing", "FreeResources never calls FreeResourcesForWG: resources of finished work-groups are never returned")
-			}
-		}
-		// HasNext
-		if hn := c.MustFunc("R09.1", dispPkg, tn+".HasNext"); hn != nil && counter != "" {
-			ok := false
-			for _, b := range hn.Blocks {
-				for _, in := range b.Instrs {
-					if r, isRet := in.(*ssa.Return); isRet && len(r.Results) == 1 {
-						if bo, isB := r.Results[0].(*ssa.BinOp); isB && bo.Op == token.LSS && prov.Of(bo.X) == "recv."+counter {
-							ok = true
-						}
-					}
-				}
-			}
-			st1.Ob(ok)
-			if !ok {
-				c.ReportAt("R09.1", hn, hn.Pos(), tn+":hasnext", "HasNext is not `"+counter+" < number of work-groups` on the counter that Next increments")
-			}
-		}
-	}
-	if len(algTypes) < 3 {
-		c.Report(core.Finding{Rule: "R09.1", Kind: "floor", Pkg: dispPkg, Func: "-", Detail: "algorithm-count", Msg: fmt.Sprintf("%d implementations of dispatching.algorithm found, 3 confirmed by hand", len(algTypes))})
-	}
+	checkPlacementSiblings(c, pd, prov, "R09.1")
 
 	// ---------------- R09.2 / R09.3 / R09.4 dispatcher ----------------
 	RunProto(c, &ProtoCfg{
@@ -389,6 +178,10 @@ func runC09(c *core.Ctx) core.Meta {
 			return w != nil && core.ShortFieldID(w) == f
 		}, owners[f]...)
 	}
+
+	// ---------------- R09.9 a request is taken off its port only where it is going to be served ----------------
+	st9 := c.Rule("R09.9", "in the command processor's middlewares a message is retrieved from a port (RetrieveIncoming) only on paths that go on to serve it: no `return false` (nothing done, try again next cycle) is reachable after the retrieval within the same call. A launch request that is dequeued before the test for a free dispatcher is lost when all dispatchers are busy: none of its work-groups is ever mapped and no response is ever sent", 6)
+	checkRetrievedThenGivenUp(c, st9, "R09.9", pc, "the message is gone, so the retry of the next cycle finds another one (a kernel launch that arrives while every dispatcher is busy is dropped)")
 
 	// ---------------- R09.8 a placed work-group is remembered until it was sent ----------------
 	st8 := c.Rule("R09.8", "the placement algorithm's Next() reserves resources and counts the work-group as handed out; in the dispatcher every path from a call of Next() to a return either stores the returned location in the dispatcher's pending slot (currWG) or passes the success edge of the Send of its map request: a location kept only in a local is forgotten when the Send is refused, the work-group is never mapped, its reservation is never freed and the kernel is reported complete without it", 1)
@@ -1082,4 +875,223 @@ func slotIsSourceOf(prov *core.Prov, addr ssa.Value, wg ssa.Value) (bool, string
 		return true, ""
 	}
 	return false, "slot address not understood"
+}
+
+// checkPlacementSiblings: the placement algorithms as siblings of one interface (R09.1;
+// shared with C08 as R08.5: a work-group handed out twice or never is a partition failure
+// at dispatch level).
+func checkPlacementSiblings(c *core.Ctx, pd *PkgInfo, prov *core.Prov, rule string) {
+	st1 := c.Rule(rule, "every type implementing dispatching.algorithm returns a valid location only where ReserveResourceForWG succeeded on the CU whose port and ID are returned, for the work-group that was reserved; on that path the dispatched counter is incremented exactly once and the pending work-group slot is cleared; FreeResources frees location.wg on GetCU(location.cuID); HasNext compares the same counter with the number of work-groups", 3)
+	algIface := pd.Pkg.Pkg.Scope().Lookup("algorithm")
+	var algTypes []*types.Named
+	if algIface == nil {
+		c.Report(core.Finding{Rule: rule, Kind: "anchor", Pkg: dispPkg, Func: "-", Detail: "algorithm", Msg: "interface dispatching.algorithm not found"})
+	} else {
+		iface := algIface.Type().Underlying().(*types.Interface)
+		for _, n := range pd.Pkg.Pkg.Scope().Names() {
+			tn, ok := pd.Pkg.Pkg.Scope().Lookup(n).(*types.TypeName)
+			if !ok {
+				continue
+			}
+			named, ok := tn.Type().(*types.Named)
+			if !ok || types.IsInterface(named) || strings.HasPrefix(tn.Name(), "Mock") {
+				continue // generated gomock types are test doubles, not placement algorithms
+			}
+			if types.Implements(types.NewPointer(named), iface) {
+				algTypes = append(algTypes, named)
+			}
+		}
+	}
+	for _, at := range algTypes {
+		tn := at.Obj().Name()
+		st1.Instances++
+		next := c.MustFunc(rule, dispPkg, tn+".Next")
+		if next == nil {
+			continue
+		}
+		c.MarkAnalysed(next)
+		g := core.BuildGraph(next, 2, func(cal *ssa.Function) bool { return cal.Pkg == pd.Pkg })
+		reserves := g.NodesWhere(func(n *core.Node) bool {
+			return n.Frame.Parent == nil && invokes(n.Instr, "/resource", "ReserveResourceForWG")
+		})
+		if len(reserves) != 1 {
+			st1.Ob(false)
+			c.ReportAt(rule, next, next.Pos(), tn+":reserve-count", fmt.Sprintf("%d calls of ReserveResourceForWG in Next; the sibling algorithms have exactly one", len(reserves)))
+			continue
+		}
+		rv := reserves[0]
+		cuProv := prov.Of(core.CallOf(rv.Instr).Value)
+		wgProv := prov.Of(core.CallOf(rv.Instr).Args[0])
+		okCut := boolCut(func(_ *core.Node, v ssa.Value) bool {
+			e, ok := v.(*ssa.Extract)
+			return ok && e.Index == 1 && e.Tuple == rv.Instr.(ssa.Value)
+		}, true)
+		// dispatched counter field of this algorithm: field incremented in Next
+		counter := ""
+		for _, n := range g.Nodes {
+			if n.Frame.Parent != nil {
+				continue
+			}
+			if s, ok := n.Instr.(*ssa.Store); ok {
+				if f := core.FieldOfAddr(s.Addr); f != nil && core.ShortFieldID(f) == tn+"."+f.Name() && prov.Of(s.Val) == "(recv."+f.Name()+"+1)" {
+					counter = f.Name()
+				}
+			}
+		}
+		if counter == "" {
+			st1.Ob(false)
+			c.ReportAt(rule, next, next.Pos(), tn+":no-dispatched-counter", "Next never increments a dispatched-work-group counter of the algorithm")
+		}
+		for _, r := range g.NodesWhere(func(n *core.Node) bool { _, ok := n.Instr.(*ssa.Return); return ok && n.Frame.Parent == nil }) {
+			ret := r.Instr.(*ssa.Return)
+			pv := prov.Of(ret.Results[0])
+			if !strings.Contains(pv, "valid:true") {
+				st1.Ob(true)
+				continue
+			}
+			okG := g.Guarded(r, okCut)
+			st1.Ob(okG)
+			if !okG {
+				c.ReportAt(rule, next, ret.Pos(), tn+":valid-without-reservation", "a location with valid=true is returned on a path on which ReserveResourceForWG did not succeed: the work-group is mapped without resources")
+			}
+			m := regexp.MustCompile(`cu:(.*)\.DispatchingPort\(\),cuID:(.*),valid:true,wg:(.*)\}$`).FindStringSubmatch(pv)
+			okF := m != nil && m[1] == cuProv && cuProv == "recv.cuPool.GetCU("+m[2]+")" && m[3] == wgProv
+			st1.Ob(okF)
+			st1.Sample("%s.Next: valid location {cu:%s, wg:%s} after Reserve on %s", tn, short(cuProv), short(wgProv), short(cuProv))
+			if !okF {
+				c.ReportAt(rule, next, ret.Pos(), tn+":location-fields", fmt.Sprintf("the returned location does not name the CU (%s) and work-group (%s) of the successful reservation: %s", short(cuProv), short(wgProv), short(pv)))
+			}
+			// exactly one increment of the counter between reservation success and this return
+			if counter != "" {
+				cnt := 0
+				// count increments on some path: walk from the reservation; all increment nodes that reach r
+				for _, n := range g.Nodes {
+					if n.Frame.Parent != nil {
+						continue
+					}
+					if s, ok := storeToField(n.Instr, tn+"."+counter); ok && prov.Of(s.Val) == "(recv."+counter+"+1)" {
+						fromRes, _ := g.Reach(core.After(rv, nil), core.WalkOpts{ForwardOnly: true})
+						toRet, _ := g.Reach(core.After(n, nil), core.WalkOpts{ForwardOnly: true})
+						if fromRes[n] && toRet[r] {
+							cnt++
+							// must-pass: every path from ok-edge to r passes n
+							pass := true
+							g.Walk(core.After(rv, nil), core.WalkOpts{ForwardOnly: true, Stop: func(x *core.Node) bool { return x == n }}, func(s core.State) {
+								if s.N == r {
+									pass = false
+								}
+							})
+							st1.Ob(pass)
+							if !pass {
+								c.ReportAt(rule, next, ret.Pos(), tn+":counter-skipped", "a valid location can be returned without counting the work-group as dispatched (HasNext then offers it again)")
+							}
+						}
+					}
+				}
+				st1.Ob(cnt == 1)
+				if cnt != 1 {
+					c.ReportAt(rule, next, ret.Pos(), tn+":counter-count", fmt.Sprintf("%d increments of %s on the success path; exactly one expected", cnt, counter))
+				}
+			}
+			// pending slot cleared: the slot set to nil is the slot the dispatched
+			// work-group was taken from. Either the slot is the field whose value is
+			// the reserved work-group, or it is element [k] of a slice where k was
+			// returned, together with the work-group, by one call whose returns all
+			// have the form (slots[k], k) or (nil, _).
+			cleared := false
+			for _, n := range g.Nodes {
+				s, ok := n.Instr.(*ssa.Store)
+				if !ok || !core.IsNilConst(s.Val) || !strings.Contains(prov.Of(s.Addr), "currWG") {
+					continue
+				}
+				toRet, _ := g.Reach(core.After(n, nil), core.WalkOpts{ForwardOnly: true})
+				if !toRet[r] {
+					continue
+				}
+				cleared = true
+				okSlot, why := slotIsSourceOf(prov, s.Addr, core.CallOf(rv.Instr).Args[0])
+				st1.Ob(okSlot)
+				if !okSlot {
+					c.ReportAt(rule, n.Fn(), s.Pos(), tn+":slot-not-source", "the pending slot cleared on the success path is not the slot the dispatched work-group was taken from ("+why+"): the work-group stays pending and is dispatched again while another one is dropped")
+				}
+			}
+			st1.Ob(cleared)
+			if !cleared {
+				c.ReportAt(rule, next, ret.Pos(), tn+":slot-not-cleared", "the pending work-group slot is not cleared on the success path: the same work-group is dispatched again")
+			}
+			// per-source counters (partitions[k].dispatchedWG) use the same k
+			for _, n := range g.Nodes {
+				s, ok := n.Instr.(*ssa.Store)
+				if !ok || n.Frame.Parent != nil {
+					continue
+				}
+				fa, ok := s.Addr.(*ssa.FieldAddr)
+				if !ok {
+					continue
+				}
+				ld, ok := fa.X.(*ssa.UnOp)
+				if !ok {
+					continue
+				}
+				ia, ok := ld.X.(*ssa.IndexAddr)
+				if !ok {
+					continue
+				}
+				if bo, isB := s.Val.(*ssa.BinOp); !isB || bo.Op != token.ADD {
+					continue
+				}
+				st1.Instances++
+				wgP := prov.Of(core.CallOf(rv.Instr).Args[0])
+				okIdx := prov.Of(ia.Index) == wgP+"#1"
+				st1.Ob(okIdx)
+				if !okIdx {
+					c.ReportAt(rule, next, s.Pos(), tn+":source-counter-index", fmt.Sprintf("a per-source dispatched counter is incremented at index %s, which is not the source index returned with the dispatched work-group (%s#1)", short(prov.Of(ia.Index)), short(wgP)))
+				}
+			}
+		}
+		// FreeResources
+		if fr := c.MustFunc(rule, dispPkg, tn+".FreeResources"); fr != nil {
+			found := false
+			for _, b := range fr.Blocks {
+				for _, in := range b.Instrs {
+					if invokes(in, "/resource", "FreeResourcesForWG") {
+						found = true
+						cc := core.CallOf(in)
+						rp, ap := prov.Of(cc.Value), prov.Of(cc.Args[0])
+						ok := core.ProvMatch(regexp.MustCompile(`^recv\.cuPool\.GetCU\(.*\.cuID\)$`), rp) && strings.HasSuffix(ap, ".wg")
+						st1.Ob(ok)
+						st1.Sample("%s.FreeResources: %s.FreeResourcesForWG(%s)", tn, rp, ap)
+						if !ok {
+							c.ReportAt(rule, fr, in.Pos(), tn+":free-args", "FreeResources does not free location.wg on GetCU(location.cuID): "+rp+".FreeResourcesForWG("+ap+")")
+						}
+					}
+				}
+			}
+			st1.Ob(found)
+			if !found {
+				c.ReportAt(rule, fr, fr.Pos(), tn+":free-missing", "FreeResources never calls FreeResourcesForWG: resources of finished work-groups are never returned")
+			}
+		}
+		// HasNext
+		if hn := c.MustFunc(rule, dispPkg, tn+".HasNext"); hn != nil && counter != "" {
+			ok := false
+			for _, b := range hn.Blocks {
+				for _, in := range b.Instrs {
+					if r, isRet := in.(*ssa.Return); isRet && len(r.Results) == 1 {
+						if bo, isB := r.Results[0].(*ssa.BinOp); isB && bo.Op == token.LSS && prov.Of(bo.X) == "recv."+counter {
+							ok = true
+						}
+					}
+				}
+			}
+			st1.Ob(ok)
+			if !ok {
+				c.ReportAt(rule, hn, hn.Pos(), tn+":hasnext", "HasNext is not `"+counter+" < number of work-groups` on the counter that Next increments")
+			}
+		}
+	}
+	if len(algTypes) < 3 {
+		c.Report(core.Finding{Rule: rule, Kind: "floor", Pkg: dispPkg, Func: "-", Detail: "algorithm-count", Msg: fmt.Sprintf("%d implementations of dispatching.algorithm found, 3 confirmed by hand", len(algTypes))})
+	}
+
 }
